@@ -349,7 +349,7 @@ def rule_r5(prog, res):
                             'Base.customize(...)), a genuine subclass is not '
                             'a Python subclass of that variant and the '
                             'polymorphic document is rejected')
-    res.floor('R5', 'reader subclass tests', n, 2)
+    res.floor('R5', 'reader subclass tests', n, 1)
     p = prog.cls('spyne.protocol._base:ProtocolMixin')
     f = p.methods.get('issubclass')
     t = unparse(f.node)
